@@ -56,7 +56,9 @@ fn fast_gnp_random_graph_directed(
     let mut edges = vec![];
     while v < num_nodes {
         let lr: f64 = (1.0_f64 - rng.gen::<f64>()).ln();
-        w = w + 1 + ((lr / lp) as i32);
+        // lp is 0 when edge_probability is below f64 resolution: skip past every slot
+        let skip = if lp < 0.0 { lr / lp } else { f64::INFINITY };
+        w = w.saturating_add(1).saturating_add(skip as i32);
         if v == w {
             w += 1;
         }
@@ -92,7 +94,9 @@ fn fast_gnp_random_graph_undirected(
     let mut edges = vec![];
     while v < num_nodes {
         let lr: f64 = (1.0_f64 - rng.gen::<f64>()).ln();
-        w = w + 1 + ((lr / lp) as i32);
+        // lp is 0 when edge_probability is below f64 resolution: skip past every slot
+        let skip = if lp < 0.0 { lr / lp } else { f64::INFINITY };
+        w = w.saturating_add(1).saturating_add(skip as i32);
         while w >= v && v < num_nodes {
             w -= v;
             v += 1;
